@@ -38,7 +38,7 @@ class Prop:
         out = []
         for region, count in regs:
             for i in range(count * mult):
-                out.append({'region': region, 'gseed': seed * 100003 + i, 'size': 'quick' if tier == 'quick' else ('big' if i % 3 == 0 else 'quick')})
+                out.append({'region': region, 'gseed': seed * 100003 + i, 'size': 'quick' if tier == 'quick' else ('big' if i % 3 == 0 else 'quick'), 'k2x': 1 if tier == 'quick' else 5})
         return out
 
     thorough_mult = 25
@@ -149,8 +149,8 @@ def _work(job):
     if getattr(prop, 'k2_mask', None) is not None and v[0] == 'A' and tr.exc is None:
         import engine_k2
         if engine_k2.in_scope(cfg):
-            k2 = engine_k2.check_trace(tr, _DRV, max_frames=getattr(prop, 'k2_frames', 60), mask=prop.k2_mask or None, inv_mask=getattr(prop, 'k2_invs', None))
-            res['k2'] = {'frames': k2['frames'], 'other': k2['other'], 'inv_frames': k2.get('inv_frames', 0)}
+            k2 = engine_k2.check_trace(tr, _DRV, max_frames=getattr(prop, 'k2_frames', 60) * job.get('k2x', 1), mask=prop.k2_mask or None, inv_mask=getattr(prop, 'k2_invs', None))
+            res['k2'] = {'frames': k2['frames'], 'other': k2['other'], 'inv_frames': k2.get('inv_frames', 0), 'jrn_frames': k2.get('jrn_frames', 0)}
             if k2['mismatch'] and 'soft' not in res:
                 res['soft'] = {'clause': 900, 'frame': k2['mismatch'].get('frame'), 'k2': k2['mismatch']}
     res['nontrivial'] = bool(prop.nontrivial(tr)) and len(tr.frames) >= prop.min_frames
@@ -391,6 +391,8 @@ def run_check(pid, tier, seed, replay=None):
             k2tot['frames'] += r['k2']['frames']
             k2tot['other_slices_diverged'] += r['k2']['other']
             k2tot['real_snapshots_satisfying_the_T2_invariants'] += r['k2'].get('inv_frames', 0)
+            if r['k2'].get('jrn_frames'):
+                k2tot['real_snapshots_with_real_history_satisfying_the_journey_invariant'] = k2tot.get('real_snapshots_with_real_history_satisfying_the_journey_invariant', 0) + r['k2']['jrn_frames']
         if r.get('exc'):
             cov['impl_exceptions'] += 1
             k = '%s@%s' % (r['exc'][0], r['exc'][1])
